@@ -275,6 +275,11 @@ type updRecord struct {
 
 func makeUpdater(op *Op, rec *[]updRecord) func(*document.Document) *document.Document {
 	upd := op.updMap()
+	if op.Note == "narrow" {
+		for k, v := range upd {
+			upd[k] = Narrow(v) // the caller passes ints, float32s ...: normalisation is clover's business
+		}
+	}
 	keys := sortedUpdKeys(upd)
 	calls := 0
 	return func(d *document.Document) *document.Document {
@@ -892,7 +897,13 @@ func (e *Exec) invokeBulk(op *Op, rec *[]updRecord) error {
 		case "UpdateFunc":
 			return e.DB.UpdateFunc(cq, makeUpdater(op, rec))
 		}
-		return e.DB.Update(cq, op.updMap())
+		um := op.updMap()
+		if op.Note == "narrow" {
+			for k, v := range um {
+				um[k] = Narrow(v)
+			}
+		}
+		return e.DB.Update(cq, um)
 	})
 }
 
